@@ -33,7 +33,7 @@ func VerifC16ReadRace() {
 		return map[string]interface{}{"_id": k, "v": string([]byte{v})}
 	}
 	all := func(interface{}) (bool, error) { return true, nil }
-	v0, v1 := vstub.NdByte("v0"), vstub.NdByte("v1")
+	v0, v1 := vstub.NdASCII("v0"), vstub.NdASCII("v1")
 	vstub.Assume(v0 != v1)
 	if _, err := ds.Put(ctx, doc("k1", v0)); err != nil {
 		vstub.Fail("C16 Put failed")
